@@ -924,3 +924,11 @@ proof fn lemma_lits_perm(pool: Seq<Inp>, l0: Seq<(Ustr, Option<Ustr>)>, l1: Seq<
 }
 
 } // verus!
+verus! {
+
+/// the transition e is an any-word transition joining the pair p
+spec fn star_at(d: DFA, e: (u32, InpId, u32), p: (u32, u32)) -> bool {
+    0 <= ix_of(e.1) < d.inputs@.len() && d.inputs@[ix_of(e.1)] is Star && p == (e.0, e.2)
+}
+
+} // verus!
